@@ -1,16 +1,28 @@
 From Coq Require Import String Reals ZArith List.
-From OV Require Import Ops RInst XR Num.OpsC12 Gen.Analysis Model.M_C12 Spec.S_C12 Lemmas.L_C12_lists Lemmas.L_C12_spot Lemmas.L_C12_misc.
+From OV Require Import Ops RInst XR Num.OpsC12 Gen.Analysis Model.M_C12 Spec.S_C12 Lemmas.L_C12_lists Lemmas.L_C12_spot Lemmas.L_C12_misc Lemmas.L_C12_all.
 Import ListNotations.
 
-Theorem C12_first_moment_mean :
-  forall l : list R, l <> nil -> first_moment l (mean_ (O := ROps) l) = 0%R.
-Proof. exact first_moment_mean. Qed.
-Print Assumptions C12_first_moment_mean.
+Theorem C12_centroid_is_zero_first_moment :
+  (forall l : list R, l <> nil -> first_moment l (mean_ (O := ROps) l) = 0%R) /\
+       (forall (l : list R) (c : R), l <> nil -> first_moment l c = 0%R -> c = mean_ (O := ROps) l).
+Proof. exact centroid_is_zero_first_moment. Qed.
+Print Assumptions C12_centroid_is_zero_first_moment.
 
-Theorem C12_first_moment_unique :
-  forall (l : list R) (c : R), l <> nil -> first_moment l c = 0%R -> c = mean_ (O := ROps) l.
-Proof. exact first_moment_unique. Qed.
-Print Assumptions C12_first_moment_unique.
+Theorem C12_nan_reductions_skip :
+  forall O : Ops,
+       (forall (a b : list (T O)) (x : T O),
+        isnan_ x = true -> nanmean_ (a ++ x :: b) = nanmean_ (a ++ b)) /\
+       (forall (a b : list (T O)) (x : T O),
+        isnan_ x = true -> nanmax_list (a ++ x :: b) = nanmax_list (a ++ b)).
+Proof. exact nan_reductions_skip. Qed.
+Print Assumptions C12_nan_reductions_skip.
+
+Theorem C12_nanmean_clean :
+  forall (O : Ops) (l : list (T O)),
+       (forall v : T O, In v l -> isnan_ v = false) ->
+       nanmean_ l = mean_ l /\ nanmax_list l = max_list l.
+Proof. exact nanmean_clean. Qed.
+Print Assumptions C12_nanmean_clean.
 
 Theorem C12_centroid1_is_centroid :
   forall (pidx : Z) (fd : list (spot ROps)) (c : T ROps * T ROps),
@@ -22,13 +34,36 @@ Theorem C12_centroid1_is_centroid :
 Proof. exact centroid1_is_centroid. Qed.
 Print Assumptions C12_centroid1_is_centroid.
 
-Theorem C12_centroid_primary :
-  forall (W : Type) (ws : list W) (trace : W -> (spot ROps)) (wp : W) (pidx : nat),
-       nth_error ws pidx = Some wp ->
-       centroid1 (O := ROps) (Z.of_nat pidx) (map trace ws) =
-       Some (mean_ (O := ROps) (sx (trace wp)), mean_ (O := ROps) (sy (trace wp))).
-Proof. exact (@centroid_primary). Qed.
-Print Assumptions C12_centroid_primary.
+Theorem C12_reference_index_rule :
+  (forall (ws : list R) (wp : R), In wp ws -> nth_error ws (reference_index (O := ROps) ws wp) = Some wp) /\
+       (forall (ws : list R) (wp : R), ~ In wp ws -> reference_index (O := ROps) ws wp = 0).
+Proof. exact reference_index_rule. Qed.
+Print Assumptions C12_reference_index_rule.
+
+Theorem C12_centroid_reference_rule :
+  (forall (ws : list R) (trace : R -> (spot ROps)) (wp : R),
+        In wp ws ->
+        centroid1 (O := ROps) (Z.of_nat (reference_index (O := ROps) ws wp)) (map trace ws) =
+        Some (mean_ (O := ROps) (sx (trace wp)), mean_ (O := ROps) (sy (trace wp)))) /\
+       (forall (ws : list R) (trace : R -> (spot ROps)) (wp w0 : R) (rest : list R),
+        ws = w0 :: rest ->
+        ~ In wp ws ->
+        centroid1 (O := ROps) (Z.of_nat (reference_index (O := ROps) ws wp)) (map trace ws) =
+        Some (mean_ (O := ROps) (sx (trace w0)), mean_ (O := ROps) (sy (trace w0)))) /\
+       (forall (ws : list R) (trace : R -> (spot ROps)) (wp : R),
+        ws <> nil -> centroid1 (O := ROps) (Z.of_nat (reference_index (O := ROps) ws wp)) (map trace ws) <> None).
+Proof. exact centroid_reference_rule. Qed.
+Print Assumptions C12_centroid_reference_rule.
+
+Theorem C12_centroid_ignores_failed_ray :
+  forall (O : Ops) (xa xb ya yb ia : list (T O)) (nx ny : T O),
+       Z ->
+       isnan_ nx = true ->
+       isnan_ ny = true ->
+       centroid1 0 ({| sx := xa ++ nx :: xb; sy := ya ++ ny :: yb; si := ia |} :: nil) =
+       centroid1 0 ({| sx := xa ++ xb; sy := ya ++ yb; si := ia |} :: nil).
+Proof. exact centroid_ignores_failed_ray. Qed.
+Print Assumptions C12_centroid_ignores_failed_ray.
 
 Theorem C12_rms_radius_spec :
   forall (c : R * R) (s : (spot ROps)), is_rms_radius (sx s) (sy s) c (rms1 (O := ROps) (center1 (O := ROps) c s)).
@@ -58,26 +93,18 @@ Theorem C12_center_spots_spec :
 Proof. exact center_spots_spec. Qed.
 Print Assumptions C12_center_spots_spec.
 
-Theorem C12_ee_monotone :
-  forall (s : (spot ROps)) (r1 r2 : R),
-       (forall e : T ROps, In e (si s) -> (0 <= e)%R) ->
-       (r1 <= r2)%R -> (ee_at (O := ROps) s r1 <= ee_at (O := ROps) s r2)%R.
-Proof. exact ee_monotone. Qed.
-Print Assumptions C12_ee_monotone.
-
-Theorem C12_ee_bounded :
-  forall (s : (spot ROps)) (r : T ROps),
-       (forall e : T ROps, In e (si s) -> (0 <= e)%R) ->
-       (ee_at (O := ROps) s r <= total_energy (radii (O := ROps) s) (si s))%R.
-Proof. exact ee_bounded. Qed.
-Print Assumptions C12_ee_bounded.
-
-Theorem C12_ee_total :
-  forall (s : (spot ROps)) (r : R),
-       (forall q : T ROps, In q (radii (O := ROps) s) -> (q <= r)%R) ->
-       ee_at (O := ROps) s r = total_energy (radii (O := ROps) s) (si s).
-Proof. exact ee_total. Qed.
-Print Assumptions C12_ee_total.
+Theorem C12_ee_properties :
+  (forall (s : (spot ROps)) (r1 r2 : R),
+        (forall e : T ROps, In e (si s) -> (0 <= e)%R) ->
+        (r1 <= r2)%R -> (ee_at (O := ROps) s r1 <= ee_at (O := ROps) s r2)%R) /\
+       (forall (s : (spot ROps)) (r : T ROps),
+        (forall e : T ROps, In e (si s) -> (0 <= e)%R) ->
+        (ee_at (O := ROps) s r <= total_energy (radii (O := ROps) s) (si s))%R) /\
+       (forall (s : (spot ROps)) (r : R),
+        (forall q : T ROps, In q (radii (O := ROps) s) -> (q <= r)%R) ->
+        ee_at (O := ROps) s r = total_energy (radii (O := ROps) s) (si s)).
+Proof. exact ee_properties. Qed.
+Print Assumptions C12_ee_properties.
 
 Theorem C12_ee_curve_reaches_total :
   forall (s : (spot ROps)) (axis_lim buffer : R) (npts : nat),
@@ -89,31 +116,33 @@ Theorem C12_ee_curve_reaches_total :
 Proof. exact ee_curve_reaches_total. Qed.
 Print Assumptions C12_ee_curve_reaches_total.
 
-Theorem C12_op_rms_spot_spec :
-  forall xs ys : list R, is_rms_radius xs ys (mean_ (O := ROps) xs, mean_ (O := ROps) ys) (k_op_rms_spot ROps xs ys).
-Proof. exact op_rms_spot_spec. Qed.
-Print Assumptions C12_op_rms_spot_spec.
+Theorem C12_op_rms_spot_is_rms_about_centroid :
+  (forall xs ys : list R, is_rms_radius xs ys (mean_ (O := ROps) xs, mean_ (O := ROps) ys) (k_op_rms_spot ROps xs ys)) /\
+       (forall xs ys : list R, xs <> nil -> ys <> nil -> is_centroid xs ys (mean_ (O := ROps) xs, mean_ (O := ROps) ys)).
+Proof. exact op_rms_spot_is_rms_about_centroid. Qed.
+Print Assumptions C12_op_rms_spot_is_rms_about_centroid.
 
-Theorem C12_op_rms_spot_centroid :
-  forall xs ys : list R, xs <> nil -> ys <> nil -> is_centroid xs ys (mean_ (O := ROps) xs, mean_ (O := ROps) ys).
-Proof. exact op_rms_spot_centroid. Qed.
-Print Assumptions C12_op_rms_spot_centroid.
-
-Theorem C12_rayfan_init_odd :
-  forall n : Z, Z.odd (k_rayfan_init ROps n) = true /\ (n <= k_rayfan_init ROps n <= n + 1)%Z.
-Proof. exact rayfan_init_odd. Qed.
-Print Assumptions C12_rayfan_init_odd.
-
-Theorem C12_pupilab_init_odd :
-  forall n : Z,
-       Z.odd (k_pupilab_init ROps n) = true /\ (n <= k_pupilab_init ROps n <= n + 1)%Z.
-Proof. exact pupilab_init_odd. Qed.
-Print Assumptions C12_pupilab_init_odd.
+Theorem C12_fan_samples_odd :
+  (forall n : Z, Z.odd (k_rayfan_init ROps n) = true /\ (n <= k_rayfan_init ROps n <= n + 1)%Z) /\
+       (forall n : Z,
+        Z.odd (k_pupilab_init ROps n) = true /\ (n <= k_pupilab_init ROps n <= n + 1)%Z).
+Proof. exact fan_samples_odd. Qed.
+Print Assumptions C12_fan_samples_odd.
 
 Theorem C12_linspace_mid_zero :
   forall m : nat, 1 <= m -> nth m (linspace (O := ROps) (-1)%R 1%R (S (2 * m))) 7%R = 0%R.
 Proof. exact linspace_mid_zero. Qed.
 Print Assumptions C12_linspace_mid_zero.
+
+Theorem C12_rayfan_reference_rule :
+  (forall (ws : list R) (wp : R), In wp ws -> rayfan_ref (O := ROps) ws wp = wp) /\
+       (forall (ws : list R) (wp : R), ws <> nil -> In (rayfan_ref (O := ROps) ws wp) ws) /\
+       (forall (ws : list R) (wp : R) (n : Z) (fans : list (fan ROps)),
+        ws <> nil ->
+        Datatypes.length fans = Datatypes.length ws ->
+        rayfan_field (O := ROps) ws (rayfan_ref (O := ROps) ws wp) n fans <> None).
+Proof. exact rayfan_reference_rule. Qed.
+Print Assumptions C12_rayfan_reference_rule.
 
 Theorem C12_rayfan_field_spec :
   forall (ws : list R) (wref : T ROps) (n : Z) (fans out : list (fan ROps)),
@@ -193,46 +222,92 @@ Theorem C12_distortion_ftheta_value :
 Proof. exact distortion_ftheta_value. Qed.
 Print Assumptions C12_distortion_ftheta_value.
 
-Theorem C12_distortion_model_invalid_type :
-  forall (ty : string) (maxf : T ROps) (Hy : list (T ROps)) (yr : list R)
-         (yrs : list (list R)),
-       (ty =? "f-tan")%string = false ->
-       (ty =? "f-theta")%string = false -> distortion (O := ROps) ty maxf Hy (yr :: yrs) = None.
-Proof. exact distortion_model_invalid_type. Qed.
-Print Assumptions C12_distortion_model_invalid_type.
+Theorem C12_distortion_height_value :
+  forall (Hy yr : list R) (w : R),
+       exists D : list (T ROps),
+         k_distortion_height ROps Hy (w :: nil) yr = Some (D :: nil) /\
+         (forall i : nat,
+          i < Datatypes.length Hy ->
+          i < Datatypes.length yr ->
+          nth i D 0%R = rel_departure (nth i yr 0%R) (nth 0 yr 0%R / Rlit 1 (-10) * nth i Hy 0%R)).
+Proof. exact distortion_height_value. Qed.
+Print Assumptions C12_distortion_height_value.
 
-Theorem C12_grid_distortion_invalid_type :
-  forall (ty : string) (y_ref maxf : T ROps) (Hx Hy xr yr : list R),
-       (ty =? "f-tan")%string = false ->
-       (ty =? "f-theta")%string = false -> k_grid_distortion ROps ty y_ref maxf Hx Hy xr yr = None.
-Proof. exact grid_distortion_invalid_type. Qed.
-Print Assumptions C12_grid_distortion_invalid_type.
+Theorem C12_distortion_height_ideal :
+  forall (Hy yr : list R) (w m : R),
+       nth 0 Hy 0%R = Rlit 1 (-10) ->
+       m <> 0%R ->
+       (forall i : nat, i < Datatypes.length Hy -> nth i yr 0%R = (m * nth i Hy 0)%R) ->
+       0 < Datatypes.length Hy ->
+       Datatypes.length yr = Datatypes.length Hy ->
+       exists D : list (T ROps),
+         k_distortion_height ROps Hy (w :: nil) yr = Some (D :: nil) /\
+         (forall i : nat, i < Datatypes.length Hy -> nth i Hy 0%R <> 0%R -> nth i D 0%R = 0%R).
+Proof. exact distortion_height_ideal. Qed.
+Print Assumptions C12_distortion_height_ideal.
 
-Theorem C12_grid_distortion_ftheta_spec :
-  forall (y_ref maxf : R) (Hx Hy xr yr : list R),
-       let theta := (maxf * PI / 180)%R in
-       let c := (y_ref / (Rlit 1 (-10) * theta))%R in
-       exists (xp yp : list (T ROps)) (m : T ROps),
-         k_grid_distortion ROps "f-theta" y_ref maxf Hx Hy xr yr = Some (xr, yr, xp, yp, m) /\
-         xp = rev (map (fun h : R => (c * h * theta)%R) Hx) /\
-         yp = map (fun h : R => (c * h * theta)%R) Hy /\
-         (Datatypes.length Hx = Datatypes.length Hy ->
-          Datatypes.length xr = Datatypes.length Hx ->
-          Datatypes.length yr = Datatypes.length Hx ->
-          Hx <> nil ->
-          exists rel : list R,
-            is_max rel m /\
-            Datatypes.length rel = Datatypes.length Hx /\
-            (forall i : nat,
-             i < Datatypes.length Hx ->
-             nth i rel 0%R =
-             (100 *
-              sqrt
-                ((nth i xp 0 - nth i xr 0) * (nth i xp 0 - nth i xr 0) +
-                 (nth i yp 0 - nth i yr 0) * (nth i yp 0 - nth i yr 0)) /
-              sqrt (nth i xp 0 * nth i xp 0 + nth i yp 0 * nth i yp 0))%R)).
-Proof. exact grid_distortion_ftheta_spec. Qed.
-Print Assumptions C12_grid_distortion_ftheta_spec.
+Theorem C12_invalid_type_raises :
+  (forall (height : bool) (ty : string) (maxf : T ROps) (Hy : list (T ROps)) 
+          (yr : list R) (yrs : list (list R)),
+        (ty =? "f-tan")%string = false ->
+        (ty =? "f-theta")%string = false -> distortion (O := ROps) height ty maxf Hy (yr :: yrs) = None) /\
+       (forall (ty fty : string) (x_ref y_ref maxf : T ROps) (Hx Hy xr yr : list R),
+        (ty =? "f-tan")%string = false ->
+        (ty =? "f-theta")%string = false ->
+        k_grid_distortion ROps y_ref x_ref ty fty Hx Hy maxf xr yr = None).
+Proof. exact invalid_type_raises. Qed.
+Print Assumptions C12_invalid_type_raises.
+
+Theorem C12_grid_tail_spec :
+  forall xp yp xr yr : list R,
+       Datatypes.length yp = Datatypes.length xp ->
+       Datatypes.length xr = Datatypes.length xp ->
+       Datatypes.length yr = Datatypes.length xp ->
+       exists (rel : list R) (rp : list (T ROps)) (off : list bool),
+         Datatypes.length rel = Datatypes.length xp /\
+         Datatypes.length rp = Datatypes.length xp /\
+         off = map (fun r : R => Rltb (Rlit 1 (-9) * max_list (O := ROps) rp) r) rp /\
+         (forall i : nat,
+          i < Datatypes.length xp ->
+          nth i rp 0%R = sqrt (nth i xp 0%R * nth i xp 0%R + nth i yp 0%R * nth i yp 0%R) /\
+          nth i rel 0%R =
+          (100 *
+           sqrt
+             ((nth i xp 0 - nth i xr 0) * (nth i xp 0 - nth i xr 0) +
+              (nth i yp 0 - nth i yr 0) * (nth i yp 0 - nth i yr 0)) / 
+           nth i rp 0)%R) /\
+         (existsb (fun b : bool => b) off = true -> is_max (lmask (O := ROps) rel off) (grid_tail xp yp xr yr)).
+Proof. exact grid_tail_spec. Qed.
+Print Assumptions C12_grid_tail_spec.
+
+Theorem C12_grid_distortion_height_spec :
+  forall (ty : string) (x_ref y_ref : R) (maxf : T ROps) (Hx Hy xr yr : list R),
+       ((ty =? "f-tan")%string || (ty =? "f-theta")%string)%bool = true ->
+       let tiny := Rlit 1 (-10) in
+       let xp := map (fun h : R => (x_ref / tiny * h)%R) Hx in
+       let yp := map (fun h : R => (y_ref / tiny * h)%R) Hy in
+       k_grid_distortion ROps y_ref x_ref ty "object_height" Hx Hy maxf xr yr =
+       Some (xr, yr, xp, yp, grid_tail xp yp xr yr).
+Proof. exact grid_distortion_height_spec. Qed.
+Print Assumptions C12_grid_distortion_height_spec.
+
+Theorem C12_grid_distortion_angle_spec :
+  (forall (fty : string) (x_ref y_ref maxf : R) (Hx Hy xr yr : list R),
+        (fty =? "object_height")%string = false ->
+        let theta := (maxf * PI / 180)%R in
+        let xp := map (fun h : R => (x_ref / (Rlit 1 (-10) * theta) * h * theta)%R) Hx in
+        let yp := map (fun h : R => (y_ref / (Rlit 1 (-10) * theta) * h * theta)%R) Hy in
+        k_grid_distortion ROps y_ref x_ref "f-theta" fty Hx Hy maxf xr yr =
+        Some (xr, yr, xp, yp, grid_tail xp yp xr yr)) /\
+       (forall (fty : string) (x_ref y_ref maxf : R) (Hx Hy xr yr : list R),
+        (fty =? "object_height")%string = false ->
+        let theta := (maxf * PI / 180)%R in
+        let xp := map (fun h : R => (x_ref / tan (Rlit 1 (-10) * theta) * tan (h * theta))%R) Hx in
+        let yp := map (fun h : R => (y_ref / tan (Rlit 1 (-10) * theta) * tan (h * theta))%R) Hy in
+        k_grid_distortion ROps y_ref x_ref "f-tan" fty Hx Hy maxf xr yr =
+        Some (xr, yr, xp, yp, grid_tail xp yp xr yr)).
+Proof. exact grid_distortion_angle_spec. Qed.
+Print Assumptions C12_grid_distortion_angle_spec.
 
 Theorem C12_parabasal_crossing :
   forall p1 z1 d1 n1 p2 z2 d2 n2 : R,
@@ -242,39 +317,35 @@ Theorem C12_parabasal_crossing :
 Proof. exact parabasal_crossing. Qed.
 Print Assumptions C12_parabasal_crossing.
 
-Theorem C12_fc_tangential_crossing :
-  forall (M1 N1 M2 N2 y01 z01 y02 z02 : list R) (i : nat),
-       i < Datatypes.length M1 ->
-       i < Datatypes.length N1 ->
-       i < Datatypes.length M2 ->
-       i < Datatypes.length N2 ->
-       i < Datatypes.length y01 ->
-       i < Datatypes.length z01 ->
-       i < Datatypes.length y02 ->
-       i < Datatypes.length z02 ->
-       (nth i M1 0 * nth i N2 0 - nth i M2 0 * nth i N1 0)%R <> 0%R ->
-       is_crossing_z (nth i y01 0%R) (nth i z01 0%R) (nth i M1 0%R) (nth i N1 0%R) 
-         (nth i y02 0%R) (nth i z02 0%R) (nth i M2 0%R) (nth i N2 0%R)
-         (nth i z01 0%R + nth i (k_fc_tangential ROps M1 N1 M2 N2 y01 z01 y02 z02) 0%R).
-Proof. exact fc_tangential_crossing. Qed.
-Print Assumptions C12_fc_tangential_crossing.
-
-Theorem C12_fc_sagittal_crossing :
-  forall (L1 N1 L2 N2 x01 z01 x02 z02 : list R) (i : nat),
-       i < Datatypes.length L1 ->
-       i < Datatypes.length N1 ->
-       i < Datatypes.length L2 ->
-       i < Datatypes.length N2 ->
-       i < Datatypes.length x01 ->
-       i < Datatypes.length z01 ->
-       i < Datatypes.length x02 ->
-       i < Datatypes.length z02 ->
-       (nth i L1 0 * nth i N2 0 - nth i L2 0 * nth i N1 0)%R <> 0%R ->
-       is_crossing_z (nth i x01 0%R) (nth i z01 0%R) (nth i L1 0%R) (nth i N1 0%R) 
-         (nth i x02 0%R) (nth i z02 0%R) (nth i L2 0%R) (nth i N2 0%R)
-         (nth i z01 0%R + nth i (k_fc_sagittal ROps L1 N1 L2 N2 x01 z01 x02 z02) 0%R).
-Proof. exact fc_sagittal_crossing. Qed.
-Print Assumptions C12_fc_sagittal_crossing.
+Theorem C12_fc_crossing :
+  (forall (M1 N1 M2 N2 y01 z01 y02 z02 : list R) (i : nat),
+        i < Datatypes.length M1 ->
+        i < Datatypes.length N1 ->
+        i < Datatypes.length M2 ->
+        i < Datatypes.length N2 ->
+        i < Datatypes.length y01 ->
+        i < Datatypes.length z01 ->
+        i < Datatypes.length y02 ->
+        i < Datatypes.length z02 ->
+        (nth i M1 0 * nth i N2 0 - nth i M2 0 * nth i N1 0)%R <> 0%R ->
+        is_crossing_z (nth i y01 0%R) (nth i z01 0%R) (nth i M1 0%R) (nth i N1 0%R) 
+          (nth i y02 0%R) (nth i z02 0%R) (nth i M2 0%R) (nth i N2 0%R)
+          (nth i z01 0%R + nth i (k_fc_tangential ROps M1 N1 M2 N2 y01 z01 y02 z02) 0%R)) /\
+       (forall (L1 N1 L2 N2 x01 z01 x02 z02 : list R) (i : nat),
+        i < Datatypes.length L1 ->
+        i < Datatypes.length N1 ->
+        i < Datatypes.length L2 ->
+        i < Datatypes.length N2 ->
+        i < Datatypes.length x01 ->
+        i < Datatypes.length z01 ->
+        i < Datatypes.length x02 ->
+        i < Datatypes.length z02 ->
+        (nth i L1 0 * nth i N2 0 - nth i L2 0 * nth i N1 0)%R <> 0%R ->
+        is_crossing_z (nth i x01 0%R) (nth i z01 0%R) (nth i L1 0%R) (nth i N1 0%R) 
+          (nth i x02 0%R) (nth i z02 0%R) (nth i L2 0%R) (nth i N2 0%R)
+          (nth i z01 0%R + nth i (k_fc_sagittal ROps L1 N1 L2 N2 x01 z01 x02 z02) 0%R)).
+Proof. exact fc_crossing. Qed.
+Print Assumptions C12_fc_crossing.
 
 Theorem C12_evens_odds_interleave :
   forall a b : list R,
